@@ -635,8 +635,18 @@ func (s *Slice) checkWithHardRecovery(node *NodeInfo, downAfterNoAlive int, seco
 	if err != nil || masterStatus == StatusDown {
 		log.Warn("[ns:%s, %s:%s] check slave status with hard strategy, Get master status: %s, get master err: %v, duration: %v", s.Namespace, s.Cfg.Name, node.Address, masterStatus.String(), err, time.Since(start))
 		if node.IsStatusDown() {
-			node.SetStatusUp()
-			log.Warn("[ns:%s, %s:%s] check slave status with hard strategy, Marked as StatusUp success, Slave recovered from down, (case master down), duration: %v", s.Namespace, s.Cfg.Name, node.Address, time.Since(start))
+			// with the master down a down replica is put back so that reads keep being served, but a
+			// replica the circuit breaker took down still waits for its cool-down: the breaker fired
+			// because connections to it failed, and the master being down does not change that
+			node.recoverMu.Lock()
+			allowed := strategy.AllowRecovery()
+			if allowed {
+				node.SetStatusUp()
+			}
+			node.recoverMu.Unlock()
+			if allowed {
+				log.Warn("[ns:%s, %s:%s] check slave status with hard strategy, Marked as StatusUp success, Slave recovered from down, (case master down), duration: %v", s.Namespace, s.Cfg.Name, node.Address, time.Since(start))
+			}
 		}
 		return
 	}
